@@ -91,6 +91,7 @@ BUDGET_NOT_MET = []
 MUL = ['L-const', 'L-mul-q', 'L-mul-r', 'L-sq-q', 'L-sq-r', 'L-dec-q', 'L-dec-r', 'L-enc-q', 'L-enc-r']
 LIN = ['L-lin-add-q', 'L-lin-sub-q', 'L-lin-neg-q', 'L-lin-double-q', 'L-lin-div2-q', 'L-lin-add-r', 'L-lin-sub-r', 'L-lin-neg-r', 'L-lin-double-r']
 SOP = ['L-sop2', 'L-sop4']
+DIV = ['L-divrem-q', 'L-divrem-r', 'L-divrem-r-1']
 
 
 SK_STMT = {
